@@ -16,9 +16,36 @@ def to_da(cells):
                         attrs=dict(cells.get("attrs", {})))
 
 
+def amplify(seed):
+    """make thread interleavings around the work queue of method='threading' frequent and varied:
+    tiny switch interval, and a queue whose empty()/get() yield for a random while"""
+    import random
+    import sys
+    import time
+    import queue
+    from pyndl import ndl
+    sys.setswitchinterval(1e-6)
+    rnd = random.Random(seed)
+
+    class YieldingQueue(queue.Queue):
+        def empty(self):
+            r = super().empty()
+            time.sleep(rnd.choice([0, 0, 1e-5, 1e-4, 1e-3]))
+            return r
+
+        def get(self, *a, **k):
+            time.sleep(rnd.choice([0, 0, 1e-5, 1e-4, 1e-3]))
+            return super().get(*a, **k)
+    ndl.Queue = YieldingQueue
+
+
 def run_job(job, workdir):
     from pyndl import ndl
     kind = job["kind"]
+    if kind == "slice_list":
+        return capture(lambda: ndl.slice_list(list(job["list"]), job["n"]))
+    if job.get("amplify") is not None:
+        amplify(job["amplify"])
     events = [(list(cs), list(os_)) for cs, os_ in job.get("events", [])]
     pol = {0: None, 1: True, 2: False}[job.get("pol", 0)]
     if kind == "dict_ndl":
